@@ -246,6 +246,7 @@ Theorem did_url_components_wf s u : did_url_parse s = Ok u ->
   /\ (forall f, u_frag u = Some f -> exists t, f = 35 :: t /\ t <> [] /\ valid_seg char_query t = true).
 Proof.
   unfold did_url_parse. intros H.
+  destruct (list_eqb (trim s) s); cbn [negb] in H; [|discriminate].
   apply obind_ok in H as [c [P H]].
   apply obind_ok in H as [p [Hp H]].
   apply obind_ok in H as [up [Sp H]].
